@@ -70,6 +70,10 @@ type ResourcePool struct {
 	baseCapacity sync2.AtomicInt64
 	maxCapacity  sync2.AtomicInt64
 	lock         *sync.Mutex
+	// scaling is held by ScaleCapacity from its capacity swap until the slots
+	// are in (or out of) the pool, and by a scale-out while it adds its slot:
+	// one capacity change at a time.
+	scaling      *sync2.Semaphore
 	scaleOutTime int64
 	scaleInTodo  chan int8
 	Dynamic      bool
@@ -105,6 +109,7 @@ func NewResourcePool(factory Factory, capacity, maxCap int, idleTimeout time.Dur
 		baseCapacity: sync2.NewAtomicInt64(int64(capacity)),
 		maxCapacity:  sync2.NewAtomicInt64(int64(maxCap)),
 		lock:         &sync.Mutex{},
+		scaling:      sync2.NewSemaphore(1, 0),
 		scaleInTodo:  make(chan int8, 1),
 		Dynamic:      true, // 动态扩展连接池
 	}
@@ -358,6 +363,15 @@ func (rp *ResourcePool) ScaleCapacity(capacity int) error {
 		return fmt.Errorf("capacity %d is out of range", capacity)
 	}
 
+	// One capacity change at a time. A shrink lowers rp.capacity first and
+	// takes the slots out of the pool afterwards (Close waits for the resources
+	// that are still out): until it is done rp.capacity does not count the
+	// slots that are still around, and a scale-out, another ScaleCapacity or
+	// Close starting from it would hand out, add or await the wrong number.
+	verifStep("scale:lock")
+	rp.scaling.Acquire()
+	defer rp.scaling.Release()
+
 	// Atomically swap new capacity with old, but only
 	// if old capacity is non-zero.
 	var oldcap int
@@ -365,9 +379,11 @@ func (rp *ResourcePool) ScaleCapacity(capacity int) error {
 		verifStep("scale:load")
 		oldcap = int(rp.capacity.Get())
 		if oldcap == 0 {
+			verifStep("scale:unlock")
 			return ErrClosed
 		}
 		if oldcap == capacity {
+			verifStep("scale:unlock")
 			return nil
 		}
 		verifStep("scale:cas")
@@ -400,6 +416,7 @@ func (rp *ResourcePool) ScaleCapacity(capacity int) error {
 		verifStep("scale:close")
 		close(rp.resources)
 	}
+	verifStep("scale:unlock")
 	return nil
 }
 
@@ -410,7 +427,16 @@ func (rp *ResourcePool) scaleOutResources() (resourceWrapper, bool) {
 	defer rp.lock.Unlock()
 	verifStep("so:cap")
 	if rp.capacity.Get() < rp.maxCapacity.Get() {
+		verifStep("so:try")
+		// not while ScaleCapacity is at work (see there): the caller waits for
+		// a resource to be returned instead
+		if !rp.scaling.TryAcquire() {
+			verifStep("so:unlock")
+			return resourceWrapper{}, false
+		}
 		wrapper, ok := rp.AddCapacityResource()
+		verifStep("so:release")
+		rp.scaling.Release()
 		verifStep("so:unlock")
 		rp.scaleOutTime = time.Now().Unix()
 		return wrapper, ok
